@@ -4,7 +4,7 @@
    splitter. *)
 From Coq Require Import ZArith List Bool Lia Arith.
 Import ListNotations.
-Require Import SV.Common SV.C08.Stream SV.C08.StreamProofs.
+Require Import SV.Common SV.C08.Gen_tokens SV.C08.Stream SV.C08.StreamProofs.
 
 Lemma zlen_app (a b : bytes) : zlen (a ++ b) = (zlen a + zlen b)%Z.
 Proof. unfold zlen. rewrite app_length. lia. Qed.
@@ -28,7 +28,7 @@ Section Bound.
 
   Lemma bw_suffix b d : suffix_of (bw b d) (b ++ d).
   Proof.
-    unfold bound_write.
+    unfold bound_write, boundio_drop_cmp, boundio_clamp_cmp.
     assert (S1 : suffix_of ((if (zlen b + zlen d >? m)%Z then skipn (length d) b else b) ++ d) (b ++ d)).
     { apply suffix_app. destruct (zlen b + zlen d >? m)%Z; [apply suffix_skipn | apply suffix_refl]. }
     destruct (zlen _ >? m)%Z; auto.
@@ -37,7 +37,7 @@ Section Bound.
 
   Lemma bw_len b d : (0 <= m)%Z -> (zlen (bw b d) <= m)%Z.
   Proof.
-    intros Hm. unfold bound_write.
+    intros Hm. unfold bound_write, boundio_drop_cmp, boundio_clamp_cmp.
     set (b2 := (if (zlen b + zlen d >? m)%Z then skipn (length d) b else b) ++ d).
     destruct (Z.gtb_spec (zlen b2) m) as [G|G]; [|exact G].
     unfold zlen in *. rewrite skipn_length. lia.
@@ -45,7 +45,7 @@ Section Bound.
 
   Lemma bw_fit b d : (zlen b + zlen d <= m)%Z -> bw b d = b ++ d.
   Proof.
-    intros H. unfold bound_write.
+    intros H. unfold bound_write, boundio_drop_cmp, boundio_clamp_cmp.
     destruct (Z.gtb_spec (zlen b + zlen d) m) as [G|G]; [lia|].
     destruct (Z.gtb_spec (zlen (b ++ d)) m) as [G2|G2]; auto.
     rewrite zlen_app in G2. lia.
